@@ -293,11 +293,11 @@ Section Laws.
         destruct f as [o | n]; cbn [apply_ofield].
         - destruct o; cbn; exact Hh.
         - cbn [set_z0 h_z0]. intros E. destruct Hf as (_ & Hp). unfold positive_x in Hp. rewrite E in Hp.
-          cbn [xle xq0] in Hp. unfold qc_is0. destruct (Qeq_bool z 0) eqn:Q; [| reflexivity].
+          cbn [xlt xq0] in Hp. unfold qc_is0. destruct (Qeq_bool z 0) eqn:Q; [| reflexivity].
           apply Qeq_bool_iff in Q. exfalso.
           assert (T : Qle_bool z (qcz 0) = true).
           { apply Qle_bool_iff. rewrite Q. vm_compute. discriminate. }
-          congruence. }
+          rewrite T in Hp. discriminate. }
       apply G; [exact Hopts |]. cbn. intros E. injection E as <-. reflexivity. }
     unfold same_meta, obj_values, v1_result, v1_freqs.
     cbn [o_v2 o_type o_ports o_freqs o_z0 o_fmt o_cells].
